@@ -345,6 +345,102 @@ def r03g(ctx, rep, cr):
                           'decisions are announced' % (name, (miss or ['no write guard'])[:3], len(wg)))
 
 
+VOTES = 'DistributedTransaction.votes'
+
+
+def _votes_calls(f, defs, meth):
+    out = []
+    for c in A.calls(f):
+        if not re.search(r'HashMap::<K, V, S, A>::%s$' % meth, c.generic) or not c.args or c.args[0][0] == 'k':
+            continue
+        fs = A.place_fields(c.args[0][1])
+        root = None
+        if not fs:
+            fs, root = A.origin_fields(f, c.args[0][1][0], defs)
+        if any(x.endswith(VOTES) for x in fs):
+            out.append((c, root))
+    return out
+
+
+def _guarded_by_absent_test(f, defs, uses, bb):
+    """is bb reachable only through the `absent` edge of a contains_key(votes) test (unreachable once those edges are cut)?"""
+    cut = set()
+    for (c, _r) in _votes_calls(f, defs, 'contains_key'):
+        cut |= A.call_outcome(f, c, uses).err
+    return bool(cut) and bb not in A.reachable(f, [0], cut_edges=cut)
+
+
+def r03h(ctx, rep, cr, cg):
+    rep.rule('R03h', 'a recorded vote is never replaced: every HashMap::insert into DistributedTransaction.votes is either on a '
+                     'transaction object built in the same function (recovery rebuilding it from the log) or reachable only through the '
+                     '`absent` edge of a contains_key test of that map — in the function itself or at every call site of it (callers to depth 2)')
+    n = 0
+    for name, f in sorted(cr.fns.items()):
+        defs = A.Defs(f)
+        ins = _votes_calls(f, defs, 'insert')
+        if not ins:
+            continue
+        rep.analysed(f)
+        uses = A.Uses(f)
+        for k, (c, root) in enumerate(ins):
+            n += 1
+            # fresh object?
+            fresh = False
+            base = root if root is not None else c.args[0][1][0]
+            seen = set()
+            work = [base]
+            while work:
+                l = work.pop()
+                if l in seen:
+                    continue
+                seen.add(l)
+                for d in defs.defs.get(l, []):
+                    if d[2] == 'call' and d[3].resolved.endswith('DistributedTransaction::new'):
+                        fresh = True
+                    elif d[2] == 'st' and d[3][1][0] in ('ref', 'use'):
+                        pl = d[3][1][1] if d[3][1][0] == 'ref' else (d[3][1][1][1] if d[3][1][1][0] != 'k' else None)
+                        if pl is not None:
+                            work.append(pl[0])
+            if fresh:
+                rep.holds('R03h', f, 'insert#%d' % k, 'into a transaction object built in this function')
+                continue
+            if _guarded_by_absent_test(f, defs, uses, c.bb):
+                rep.holds('R03h', f, 'insert#%d' % k, 'behind the absent edge of contains_key')
+                continue
+
+            def callers_guarded(fn_name, depth):
+                callers = [x for x in cg.redges.get(fn_name, ()) if x in cg.fns]
+                if not callers:
+                    return None
+                for h in callers:
+                    hf = cg.fns[h]
+                    hd, hu = A.Defs(hf), A.Uses(hf)
+                    sites = cg.sites.get((h, fn_name), [])
+                    if not sites:
+                        return h
+                    for s_ in sites:
+                        if _guarded_by_absent_test(hf, hd, hu, s_.bb):
+                            continue
+                        if depth > 0:
+                            r = callers_guarded(h, depth - 1)
+                            if r is None and cg.redges.get(h):
+                                continue
+                            return h
+                        return h
+                return None
+            bad = callers_guarded(f.name, 2)
+            if not cg.redges.get(f.name):
+                rep.holds('R03h', f, 'insert#%d' % k, 'no caller')
+            elif bad is None:
+                rep.holds('R03h', f, 'insert#%d' % k, 'every call site is behind the absent edge of contains_key')
+            else:
+                rep.violation('R03h', f, 'vote-overwrite', f.loc(c.line),
+                              'votes.insert runs for a shard whose vote may already be recorded (%s reaches it with no preceding '
+                              'contains_key test): HashMap::insert replaces the stored vote, so a late or duplicate message flips an accepted '
+                              'No into Yes and the coordinator commits without every participant having voted yes' % lib.short(bad))
+    rep.floor('R03h', 'inserts into DistributedTransaction.votes', n, 1)
+
+
 def run(ctx, rep):
     cr = ctx.crate('tensor_chain')
     cg = ctx.callgraph(['tensor_chain'])
@@ -354,3 +450,4 @@ def run(ctx, rep):
     r03d(ctx, rep, cr)
     r03e(ctx, rep, cr)
     r03g(ctx, rep, cr)
+    r03h(ctx, rep, cr, cg)
